@@ -45,6 +45,40 @@ def unmarshalTagTable : List String :=
   ["regex", "like", "in", "equals", "number", "field", "paren", "binary", "selectItem",
    "orderBy", "call", "not"]
 
+/-- json keys (and `omitempty`) of every struct that goes over the wire, in field order
+(tied to the source by `Generated.C17.wireStructs`). -/
+def wireStructTable : List (String × List (String × Bool)) := [
+  ("exprData", [("type", false), ("expr", false)]),
+  ("innerSelectItem", [("type", false), ("expr", false), ("alias", false)]),
+  ("innerOrderByExpr", [("type", false), ("expr", false), ("desc", false)]),
+  ("innerCallExpr", [("type", false), ("funcType", false), ("params", false)]),
+  ("innerBinaryExpr", [("type", false), ("left", false), ("right", false), ("operator", false)]),
+  ("FieldExpr", [("name", false)]),
+  ("NumberLiteral", [("val", false)]),
+  ("EqualsExpr", [("key", false), ("value", false)]),
+  ("InExpr", [("key", false), ("values", false)]),
+  ("LikeExpr", [("key", false), ("value", false)]),
+  ("RegexExpr", [("key", false), ("regexp", false)]),
+  ("innerQuery", [("explain", true), ("namespace", true), ("metricName", true), ("selectItems", true),
+    ("allFields", true), ("condition", true), ("timeRange", true), ("interval", true),
+    ("storageInterval", true), ("intervalRatio", true), ("autoGroupByTime", true), ("groupBy", true),
+    ("having", true), ("orderByItems", true), ("limit", true)]),
+  ("innerMetadata", [("namespace", true), ("metricName", true), ("type", true), ("tagKey", true),
+    ("condition", true), ("prefix", true), ("limit", true)]),
+  ("TimeRange", [("start", false), ("end", false)])]
+
+/-- json keys of a wire struct -/
+def structKeys (name : String) : List String :=
+  match wireStructTable.find? (fun p => p.1 == name) with
+  | some p => p.2.map Prod.fst
+  | none => []
+
+/-- the struct `Marshal` encodes a node with (outer envelope) -/
+def Expr.envelope : Expr → String
+  | .selectItem _ _ => "innerSelectItem" | .orderBy _ _ => "innerOrderByExpr"
+  | .call _ _ => "innerCallExpr" | .binary _ _ _ => "innerBinaryExpr"
+  | _ => "exprData"
+
 /-- Go type name of a node. -/
 def Expr.goType : Expr → String
   | .field _ => "FieldExpr" | .number _ => "NumberLiteral" | .call _ _ => "CallExpr"
